@@ -311,8 +311,9 @@ def pairing(ctx):
                       'plain LinkedList::iter()', z.where())
         r0 = [r for r in root_descr(gu, z.args[0]) if r[0] == 'param']
     bk = gu.calls(r'LinkedList::<[^>]*>::back$')
-    pb = gu.calls(r'LinkedList::<[^>]*>::push_back$')
-    pf = gu.calls(r'LinkedList::<[^>]*>::push_front$')
+    # (the markers may live in a LinkedList or in a Vec: Vec::push appends like push_back, Vec::insert(0, ..) prepends)
+    pb = gu.calls(r'LinkedList::<[^>]*>::push_back$', r'^std::vec::Vec::<[^>]*>::push$')
+    pf = gu.calls(r'LinkedList::<[^>]*>::push_front$', r'^std::vec::Vec::<[^>]*>::insert$')
     ctx.check(len(bk) == 1 and len(pb) == 1 and not pf, gu.key, 'last marker <-> last tracer',
               'the solved marker is not the one of the last tracer (back() / push_back)', 'tracers.back(), markers.push_back', gu.where())
     tk = gu.calls(r'^std::iter::Iterator::take$')
@@ -357,7 +358,19 @@ def tracing_level_floor(ctx):
         ctx.ok(key, 'no decrease function', 'the tracing level cannot be decreased', '')
         return
     body = F.bodies[key]
-    pops = body.calls(r'LinkedList::<[^>]*>::(pop_front|pop_back)$')
+    REMOVERS = r'(LinkedList|VecDeque|Vec)::<[^>]*>::(pop_front|pop_back|pop|drain|truncate|clear|remove|split_off|retain|swap_remove)$'
+    pops = body.calls(r'(LinkedList|VecDeque|Vec)::<[^>]*>::(pop_front|pop_back|pop)$')
+    # nobody else shrinks the list of tracers: the guarded function is the only way down
+    from .c02 import root_descr
+    for fb in F.fns() + [b for b in F.bodies.values() if b.kind == 'Closure']:
+        if (fb.root or fb.key) == key or '::tests::' in (fb.root or fb.key):
+            continue
+        for c in fb.calls(REMOVERS):
+            if c.args and any(r[0] == 'param' and 'tracers' in [str(x) for x in r[2]] for r in root_descr(fb, c.args[0])):
+                ctx.bad(fb.root or fb.key, 'tracers removed outside the guarded function',
+                        '%s removes tracers (%s, line %d) without going through _decrease_tracing and its MIN_TRACING_LEVEL guard: the '
+                        'level can reach 0, where no marker is random and every issued identifier is the same'
+                        % (fb.key, c.name.split('::')[-1], c.ln), fb.where(c.ln))
     minv = (F.consts.get('core::MIN_TRACING_LEVEL') or {}).get('v', 1)
     for c in pops:
         ok = False
